@@ -69,7 +69,7 @@ fn worker<C: SimpleCase>(gen: &(dyn Fn(&mut Rng, bool) -> C + Sync), cfg: &RunCf
       r.unknown_oracle_failures += 1;
       let (c2, f2) = if shrunk.len() < cfg.max_shrink && shrunk.insert(format!("oracle:{}", f.clause)) {
         let clause = f.clause.clone();
-        let c2 = shrink_with(&case, &mut |c| c.oracle(&c.run_impl()).iter().any(|x| x.clause == clause && c.known(x).is_none()));
+        let c2 = shrink_with(&case, &mut |c| catch(|| c.oracle(&c.run_impl()).iter().any(|x| x.clause == clause && c.known(x).is_none())).unwrap_or(false));
         let f2 = c2.oracle(&c2.run_impl()).into_iter().find(|x| x.clause == clause && c2.known(x).is_none()).unwrap_or(f.clone());
         (c2, f2)
       } else { (case.clone(), f.clone()) };
